@@ -198,7 +198,7 @@ class PEval(object):
         return None
 
     # ------------------------------------------------------------ statements
-    def _store(self, lhs, val, env, nid, events, line):
+    def _store(self, lhs, val, env, nid, events, line, rhs=None):
         l = strip(lhs)
         if l.k == 'ref' and l.refk in ('VarDecl', 'ParmVarDecl'):
             if val is None:
@@ -221,7 +221,7 @@ class PEval(object):
             for k in [k for k in env if k[0] == 'p']:
                 env.pop(k, None)
             if self.store_filter is None or self.store_filter('?', fld):
-                events.append(('store', '?', val, line, fld))
+                events.append(('store', '?', val, line, fld, rhs))
             return
         key = c[0]
         # may-alias: other paths ending in the same field are forgotten
@@ -236,7 +236,7 @@ class PEval(object):
         else:
             env[('p', key)] = val
         if self.store_filter is None or self.store_filter(key, fld):
-            events.append(('store', key, val, line, fld))
+            events.append(('store', key, val, line, fld, rhs))
 
     def _exec(self, node, env, events):
         """execute one atomic node on env (in place), append events"""
@@ -321,7 +321,8 @@ class PEval(object):
                         v = binop(n.op[:-1], a, b)
                 if v is not None:
                     v = _wrap(v, strip(n.kids[0]).cty if strip(n.kids[0]) is not None else n.cty)
-                self._store(n.kids[0], v, env, nid, events, n.line)
+                self._store(n.kids[0], v, env, nid, events, n.line,
+                            rhs=(show(strip(n.kids[1])) if n.op == '=' else None))
             elif n.k == 'un' and n.op in ('++', '--', 'post++', 'post--'):
                 a = self.ev(n.kids[0], env, nid)
                 v = None
